@@ -145,13 +145,15 @@ Definition name_tag : N := 4278190080. (* 0xff000000 *)
 Definition rec_block (namelen_word head : N) (name : bytes) : bytes :=
   le32 namelen_word ++ le32 head ++ name.
 
-Inductive nc_result := NCLong | NCCorrupt | NCStuck | NCOk (off : N).
+Inductive nc_result := NCEmpty | NCLong | NCCorrupt | NCStuck | NCOk (off : N).
 
-(* mappedFile.newCounter for a single writer.  NCStuck: the source would
+(* mappedFile.newCounter for a single writer (the empty name and names over
+   4096 bytes are refused).  NCStuck: the source would
    loop (extend rounds end up to 0 in uint32 when the file is within one
    page of 4 GiB). *)
 Definition new_counter (meta : bytes) (hdr : N) (bs name : bytes) : nc_result * bytes :=
   let sz := len bs in
+  if len name =? 0 then (NCEmpty, bs) else
   if c_maxNameLen <? len name then (NCLong, bs) else
   match lookup_sz sz bs hdr name with
   | LDiverge => (NCStuck, bs)
@@ -187,12 +189,12 @@ Inductive op :=
   | OpExtend (e : N)                  (* extend(e) *)
   | OpReopen (meta : bytes).          (* close; openMapped(path, meta) *)
 
-Inductive op_result := RLong | RCorrupt | RStuck | ROk (off : N) | RDone | RFail.
+Inductive op_result := REmpty | RLong | RCorrupt | RStuck | ROk (off : N) | RDone | RFail.
 
 Record wstate := { w_meta : bytes; w_hdr : N; w_bs : bytes }.
 
 Definition nc_to_op (r : nc_result) : op_result :=
-  match r with NCLong => RLong | NCCorrupt => RCorrupt | NCStuck => RStuck | NCOk o => ROk o end.
+  match r with NCEmpty => REmpty | NCLong => RLong | NCCorrupt => RCorrupt | NCStuck => RStuck | NCOk o => ROk o end.
 
 Definition step (s : wstate) (o : op) : op_result * wstate :=
   match o with
